@@ -273,6 +273,9 @@ func (r *R) Gen(ctx sdk.Context, g *hx.Rng) string {
 		live := false
 		for _, c := range ctxs {
 			if c.c.Repeated && c.c.State == types.RUNNING {
+				if c.c.ModuleName != "" {
+					return "service mpause " + hx.KV("consumer", c.consumer, "ctx", c.id)
+				}
 				return "service pause " + hx.KV("consumer", c.consumer, "ctx", c.id)
 			}
 			if c.c.State != types.PAUSED || c.c.BatchState != types.BATCHCOMPLETED {
